@@ -940,7 +940,12 @@ func ruleP16AmPm(p *Prog, r *Report) {
 		if iff, ok := in.(*ssa.If); ok {
 			if bo, ok := iff.Cond.(*ssa.BinOp); ok {
 				k, isK := constInt(bo.Y)
-				if isK && ((bo.Op == token.GTR && k == 12) || (bo.Op == token.LSS && k == 1)) {
+				// hour > 12 / hour < 1, or their complements hour <= 12 / hour >= 1 (De Morgan),
+				// or the same bounds spelled with the neighbouring constant
+				if isK && ((bo.Op == token.GTR && k == 12) || (bo.Op == token.LSS && k == 1) ||
+					(bo.Op == token.LEQ && k == 12) || (bo.Op == token.GEQ && k == 1) ||
+					(bo.Op == token.GEQ && k == 13) || (bo.Op == token.LEQ && k == 0) ||
+					(bo.Op == token.LSS && k == 13) || (bo.Op == token.GTR && k == 0)) {
 					okRange = true
 				}
 			}
